@@ -1,5 +1,6 @@
 import sys
 import os
+import threading
 
 from unittest.mock import patch
 
@@ -33,6 +34,17 @@ class SandboxBasicTracer:
         super().__init__()
         self.filename = "student.py"
         self.code = None
+        # Trace functions are installed per thread (an imported student file
+        # may run in a thread of its own): the nesting depth and the trace
+        # function to put back, for each thread
+        self._entered = {}
+
+    def _thread_state(self):
+        return self._entered.setdefault(threading.get_ident(), [0, None])
+
+    def _leave_thread(self, state):
+        if not state[0]:
+            self._entered.pop(threading.get_ident(), None)
 
     def as_filename(self, filename, code):
         if os.path.isabs(filename):
@@ -130,17 +142,20 @@ class SandboxNativeTracer(SandboxBasicTracer):
         self.step_index = 1
 
     def __enter__(self):
-        self._depth += 1
-        if self._depth > 1:
+        state = self._thread_state()
+        state[0] += 1
+        if state[0] > 1:
             return
-        self.old_tracer = sys.gettrace()
+        state[1] = self.old_tracer = sys.gettrace()
         sys.settrace(self.tracer)
 
     def __exit__(self, exc_type, exc_val, traceback):
-        self._depth -= 1
-        if self._depth:
+        state = self._thread_state()
+        state[0] -= 1
+        self._leave_thread(state)
+        if state[0]:
             return
-        sys.settrace(self.old_tracer)
+        sys.settrace(state[1])
 
     def is_tracked_file(self, frame):
         left = os.path.basename(frame.f_code.co_filename)
@@ -195,18 +210,22 @@ class SandboxCallTracer(SandboxBasicTracer, Bdb):
         self.calls[name].append(code)
 
     def __enter__(self):
-        self._depth += 1
-        if self._depth > 1:
+        state = self._thread_state()
+        state[0] += 1
+        if state[0] > 1:
             return
-        self.reset()
-        self._old_trace = sys.gettrace()
+        if len(self._entered) == 1:
+            self.reset()
+        state[1] = self._old_trace = sys.gettrace()
         sys.settrace(self.trace_dispatch)
 
     def __exit__(self, exc_type, exc_val, traceback):
-        self._depth -= 1
-        if self._depth:
+        state = self._thread_state()
+        state[0] -= 1
+        self._leave_thread(state)
+        if state[0]:
             return
-        sys.settrace(self._old_trace)
+        sys.settrace(state[1])
         self.quitting = True
         # Return true to suppress exception (if it is a BdbQuit)
         return isinstance(exc_type, BdbQuit)
